@@ -170,6 +170,11 @@ def tlc(
     if simulate is not None and "Finished" not in out and rc != 0 and "Error:" not in out:
         r.ok = True
         return r
+    try:
+        with open(os.path.join(OUT, "last_tlc_error.txt"), "w") as f:
+            f.write(out)
+    except OSError:
+        pass
     raise MachineryError(f"TLC failed (rc={rc}) on {module}/{cfg}:\n" + _tail(out))
 
 
